@@ -92,6 +92,8 @@ def regions(tree, act):
     for n in tree.iter_subtrees():
         if n.data == "member_object":
             r.add("C03-object-construction")
+        if n.data == "dot_ident_arg":
+            r.add("C03-dot-ident-call")
         if n.data == "ident_arg" and n.children[0].value in ("has", "dyn"):
             args = n.children[1].children if len(n.children) == 2 else []
             if len(args) != 1:
